@@ -364,6 +364,26 @@ def probe_c04(ctx, pf):
             n += 1
             if rel(ref.value, ret.value) > 1e-8:
                 ctx.violation(f"c04:{cname}:solveMatrixPDE", f"{cname}: solvePDE and solveMatrixPDE on the hand-assembled system differ", L)
+        # source / transient terms with per-cell coefficients: solvePDE against a system assembled here entry by entry
+        # (row of cell c: beta_c on the diagonal, gamma_c and alpha_c*old_c/dt on the right) -- not with the builders
+        import scipy.sparse as sp
+        with np.errstate(all="ignore"):
+            bet = np.abs(gen.cell_array(rng, mesh))[interior_slices(d)] + 0.5
+            alf = np.abs(gen.cell_array(rng, mesh))[interior_slices(d)] + 0.5
+            gm = gen.cell_array(rng, mesh)[interior_slices(d)]
+            N = int(np.prod(shape))
+            rows = G[interior_slices(d)].ravel()
+            dg = np.zeros(N); dg[rows] = (bet + alf / 0.25).ravel()
+            rv = np.zeros(N); rv[rows] = (gm + alf * inner / 0.25).ravel()
+            x2 = pf.CellVariable(mesh, inner, BC)
+            pf.solvePDE(x2, [pf.transientTerm(x2, 0.25, pf.CellVariable(mesh, alf)), -Md, pf.linearSourceTerm(pf.CellVariable(mesh, bet)),
+                             pf.constantSourceTerm(pf.CellVariable(mesh, gm))])
+            ref2 = pf.solveMatrixPDE(mesh, sp.csr_array(Mbc - Md + sp.diags(dg, format="csr")), Rbc + rv)
+        if np.all(np.isfinite(ref2._value)) and np.max(np.abs(ref2._value)) < 1e6:
+            n += 1
+            if rel(ref2.value, x2.value) > 1e-8:
+                ctx.violation(f"c04:{cname}:source-terms", f"{cname}: solvePDE with transient / linear-source / constant-source terms of per-cell coefficients differs from the system assembled cell by cell (rel {rel(ref2.value, x2.value):.3g})",
+                              dict(L, beta=bet, alpha=alf, gamma=gm))
     return n
 
 
@@ -438,6 +458,23 @@ def probe_c12(ctx, pf):
                 ctx.violation(f"c12:{cname}:explicit", f"{cname}: solveExplicitPDE is not old + dt*RHS on interior cells", dict(L, dt=dt))
             if not np.array_equal(before, old._value):
                 ctx.violation(f"c12:{cname}:explicit-input", f"{cname}: solveExplicitPDE modified its input variable", L)
+            # explicit multi-step loop in the documented style (c_old.update_value(c_new)) against a loop that constructs a fresh
+            # variable from the interior values at every step
+            normD = float(abs(spatial[0]).max()) + 1.0
+            dte = 0.2 / normD
+            c_old = pf.CellVariable(mesh, inner, BC)
+            ref_v = pf.CellVariable(mesh, inner, BC)
+            for stp in range(4):
+                rhs1 = pf.divergenceTerm(fmul(pf, mesh, D, pf.gradientTerm(c_old)))
+                c_new = pf.solveExplicitPDE(c_old, dte, rhs1)
+                c_old.update_value(c_new)
+                rhs2 = pf.divergenceTerm(fmul(pf, mesh, D, pf.gradientTerm(ref_v)))
+                r_new = pf.solveExplicitPDE(ref_v, dte, rhs2)
+                ref_v = pf.CellVariable(mesh, np.array(r_new.value), BC)
+                n += 1
+                if rel(c_old._value, ref_v._value) > 1e-10:
+                    ctx.violation(f"c12:{cname}:explicit-loop", f"{cname}: explicit time loop with update_value differs from fresh variables at step {stp + 1} (stale boundary values)", dict(L, dt=dte, step=stp + 1))
+                    break
             # explicit vs implicit: O(dt^2)
             errs = []
             Ssum = -spatial[0] + spatial[1] + spatial[2]
@@ -631,6 +668,30 @@ def probe_c11(ctx, pf):
             g = np.exp((w1 * np.log(a) + w2 * np.log(b)) / (w1 + w2))
             if rel(vals["geometricMean"], g) > 1e-12:
                 ctx.violation(f"c11:{cname}:geometric", f"{cname}: geometricMean is not exp of the width-weighted mean of logs (axis {ax})", dict(L, axis=ax))
+        # upwindMean: donor cell by the sign of u (boundary value = mean of ghost and adjacent cell on boundary faces), mean at u == 0
+        arb = gen.cell_array(rng, mesh)
+        pa = pf.CellVariable(mesh, arb)
+        uarrs = gen.face_arrays(rng, mesh, lo=-1.0, hi=1.0)
+        for ua in uarrs:
+            if ua.size:
+                ua.flat[rng.randrange(ua.size)] = 0.0
+        uf = pf.FaceVariable(mesh, *uarrs)
+        with np.errstate(all="ignore"):
+            um = pf.upwindMean(pa, uf)
+        for ax in range(d):
+            tmp = arb.copy()
+            first = tuple(0 if i == ax else slice(None) for i in range(d)); second = tuple(1 if i == ax else slice(None) for i in range(d))
+            last = tuple(-1 if i == ax else slice(None) for i in range(d)); lastb = tuple(-2 if i == ax else slice(None) for i in range(d))
+            tmp[first] = 0.5 * (arb[first] + arb[second]); tmp[last] = 0.5 * (arb[last] + arb[lastb])
+            lo = tuple(slice(0, -1) if i == ax else slice(1, -1) for i in range(d))
+            hi = tuple(slice(1, None) if i == ax else slice(1, -1) for i in range(d))
+            uu = uarrs[ax]
+            want = np.where(uu > 0, tmp[lo], np.where(uu < 0, tmp[hi], 0.5 * (arb[lo] + arb[hi])))
+            got = (um._xvalue, um._yvalue, um._zvalue)[ax]
+            n += 1
+            if got.shape != want.shape or rel(got, want) > 1e-13:
+                ctx.violation(f"c11:{cname}:upwind-donor", f"{cname}: upwindMean is not the donor-cell value (boundary value on inflow boundary faces) along axis {ax}",
+                              dict(L, axis=ax, phi_with_ghosts=arb, u=[a.tolist() for a in uarrs]))
         # constants reproduced; zeros handled identically in every dimension
         cst = pf.CellVariable(mesh, np.full(shape, 2.5))
         for k in ("linearMean", "arithmeticMean", "geometricMean", "harmonicMean"):
@@ -893,7 +954,16 @@ def probe_c09(ctx, pf):
             try:
                 with np.errstate(all="ignore"):
                     fresh = pf.CellVariable(world.mesh, np.array(v.value), _copy.deepcopy(v.BCs))
-                    a = v.copy() if False else v
+                    a = v
+                    if (k + vi) % 2 == 0:
+                        # explicit solver FIRST: it must bring the ghost cells of its input up to date, and its result equals a fresh start
+                        e1 = pf.solveExplicitPDE(a, 0.01, np.zeros(a._value.size))
+                        e2 = pf.solveExplicitPDE(fresh, 0.01, np.zeros(a._value.size))
+                        n += 1
+                        if rel(e1._value, e2._value) > 1e-9 or rel(a._value, fresh._value) > 1e-9:
+                            ctx.violation(f"c09:{cname}:explicit-first", f"{cname}: after a history of {len(desc)} operations solveExplicitPDE leaves stale boundary values or differs from a fresh start",
+                                          dict(L, variable=vi))
+                            break
                     pf.solvePDE(a, [pf.transientTerm(a, 0.7, 1.0), -pf.diffusionTerm(D)])
                     pf.solvePDE(fresh, [pf.transientTerm(fresh, 0.7, 1.0), -pf.diffusionTerm(D)])
                 n += 1
@@ -913,6 +983,7 @@ def probe_c09(ctx, pf):
             except Exception as ex:
                 ctx.violation(f"c09:{cname}:solve-raise", f"{cname}: solve after a history raised {type(ex).__name__}: {ex}", dict(L, variable=vi))
                 break
+        # (end of per-variable checks)
         # copies and arithmetic results are independent of their originals (values AND boundary conditions): edit the derived
         # variable, then solve the original and compare with a fresh start made BEFORE the edit
         v = world.vars[0]
@@ -928,6 +999,75 @@ def probe_c09(ctx, pf):
             if np.all(np.isfinite(fresh._value)) and rel(a1._value, fresh._value) > 1e-9:
                 ctx.violation(f"c09:{cname}:independent:{nm}", f"{cname}: editing the values / boundary conditions of {nm} changed what the original variable solves to", dict(L, derived=nm))
                 break
+    # two variables sharing one BoundaryConditions object: an edit followed by a solve of ONE of them resets the dirty flags; the
+    # explicit solver must refresh the other variable's boundary values all the same (Coq: explicit_refreshes_input)
+    for cname in ("Grid1D", "CylindricalGrid2D"):
+        rng_s = random.Random(f"c09sh-{ctx.seed}-{cname}")
+        fs = gen.mesh_case(rng_s, cname, nmax=3, nmin=3)
+        mesh = gen.build_mesh(pf, cname, fs)
+        d = gen.DIM[cname]
+        D = pf.FaceVariable(mesh, 1.0)
+        with np.errstate(all="ignore"):
+            bc = pf.BoundaryConditions(mesh)
+            v0 = pf.CellVariable(mesh, np.abs(gen.cell_array(rng_s, mesh))[interior_slices(d)] + 0.5, bc)
+            v1 = pf.CellVariable(mesh, np.abs(gen.cell_array(rng_s, mesh))[interior_slices(d)] + 0.5, bc)
+            bc.left.a[:] = 0.0; bc.left.b[:] = 1.0; bc.left.c[:] = 3.0
+            pf.solvePDE(v0, [pf.transientTerm(v0, 0.05, 1.0), -pf.diffusionTerm(D)])
+            fresh = pf.CellVariable(mesh, np.array(v1.value), _copy.deepcopy(bc))
+            outs = []
+            for w_ in (v1, fresh):
+                pf.solveExplicitPDE(w_, 1e-3, np.zeros(w_._value.size))
+                rhs = pf.divergenceTerm(fmul(pf, mesh, D, pf.gradientTerm(w_)))
+                outs.append(np.array(pf.solveExplicitPDE(w_, 1e-3, rhs)._value))
+        n += 1
+        if rel(outs[0], outs[1]) > 1e-9:
+            ctx.violation("c09:shared_bc_stale_ghost", f"{cname}: two variables share one BoundaryConditions object; after an edit and a solve of the first, the second variable's boundary values stay outdated (explicit step from it differs from a fresh start)",
+                          {"cls": cname, "faces": [list(map(float, f)) for f in fs], "history": ["v0, v1 share bc", "bc.left := Dirichlet 3", "solvePDE(v0)", "solveExplicitPDE(v1, 0)", "rhs = div(D grad v1)", "solveExplicitPDE(v1, rhs)"]})
+    # systematic: from a clean state (constructed, one implicit step), edit exactly ONE side in one style, then each consumer
+    # (explicit solver, apply_BCs, implicit solver) must see the edit -- on every class and every side
+    rng = random.Random(f"c09s-{ctx.seed}")
+    for cname in gen.CLASSES:
+        d = gen.DIM[cname]
+        fs = gen.mesh_case(rng, cname, nmax=3, nmin=2)
+        mesh = gen.build_mesh(pf, cname, fs)
+        D = pf.FaceVariable(mesh, 1.0)
+        for ax in range(d):
+            for side in SIDES[ax]:
+                for style in ("assign", "slice", "method", "periodic"):
+                    if style == "periodic" and gen.AXKIND[cname][ax] == "rad":
+                        continue
+                    for consumer in ("explicit", "apply_BCs", "implicit"):
+                        L = {"cls": cname, "faces": [list(map(float, f)) for f in fs], "side": side, "edit": style, "then": consumer}
+                        try:
+                            with np.errstate(all="ignore"):
+                                init = np.abs(gen.cell_array(rng, mesh))[interior_slices(d)] + 0.5
+                                v = pf.CellVariable(mesh, init)
+                                pf.solvePDE(v, [pf.transientTerm(v, 0.05, 1.0), -pf.diffusionTerm(D)])
+                                f = getattr(v.BCs, side)
+                                if style == "assign":
+                                    f.a = 0.0 * np.asarray(f.a); f.b = 0.0 * np.asarray(f.b) + 1.0; f.c = 0.0 * np.asarray(f.c) + 3.0
+                                elif style == "slice":
+                                    f.a[:] = 0.0; f.b[:] = 1.0; f.c[:] = 3.0
+                                elif style == "method":
+                                    f.fixedValue(3.0)
+                                else:
+                                    f.periodic = True
+                                fresh = pf.CellVariable(mesh, np.array(v.value), _copy.deepcopy(v.BCs))
+                                if consumer == "explicit":
+                                    r1 = pf.solveExplicitPDE(v, 0.01, np.zeros(v._value.size)); r2 = pf.solveExplicitPDE(fresh, 0.01, np.zeros(v._value.size))
+                                    bad = rel(r1._value, r2._value) > 1e-9 or rel(v._value, fresh._value) > 1e-9
+                                elif consumer == "apply_BCs":
+                                    v.apply_BCs(); fresh.apply_BCs()
+                                    bad = rel(v._value, fresh._value) > 1e-9
+                                else:
+                                    pf.solvePDE(v, [pf.transientTerm(v, 0.05, 1.0), -pf.diffusionTerm(D)])
+                                    pf.solvePDE(fresh, [pf.transientTerm(fresh, 0.05, 1.0), -pf.diffusionTerm(D)])
+                                    bad = np.all(np.isfinite(fresh._value)) and rel(v._value, fresh._value) > 1e-9
+                            n += 1
+                            if bad:
+                                ctx.violation(f"c09:{cname}:single-edit:{consumer}", f"{cname}: after editing only the '{side}' side ({style}) {consumer} does not see the edit: result differs from a fresh start", L)
+                        except Exception as ex:
+                            ctx.violation(f"c09:{cname}:single-edit:raise", f"{cname}: single-side edit ({side}, {style}) then {consumer} raised {type(ex).__name__}: {ex}", L)
     return n
 
 
@@ -1137,6 +1277,13 @@ def _bits(r):
     return [np.array(a, copy=True) for _, a in _result_arrays(r)]
 
 
+class _Flags:
+    """live view of the six periodic flags of a BoundaryConditions object (snapshotted like an array)"""
+    def __init__(self, bcs): self.bcs = bcs
+    def __array__(self, dtype=None, copy=None):
+        return np.array([bool(getattr(self.bcs, s).periodic) for ax in range(3) for s in SIDES[ax]])
+
+
 def probe_c15(ctx, pf):
     from suites.bcsuite import set_random_bcs
     n = 0
@@ -1144,6 +1291,7 @@ def probe_c15(ctx, pf):
         d = len(mesh.dims)
         L = lab(cname, fs)
         BC, _, _ = set_random_bcs(rng, mesh, cname, allow_periodic=False)
+        nonrad = [ax for ax in range(d) if gen.AXKIND[cname][ax] != "rad"]
         phi = pf.CellVariable(mesh, np.abs(gen.cell_array(rng, mesh))[interior_slices(d)] + 0.5, BC)
         D = pf.FaceVariable(mesh, *[np.abs(a) + 0.25 for a in gen.face_arrays(rng, mesh)])
         u = pf.FaceVariable(mesh, *gen.face_arrays(rng, mesh))
@@ -1167,7 +1315,8 @@ def probe_c15(ctx, pf):
                  ("domainIntegral", lambda: np.asarray(phi.domainIntegral())),
                  ("solveMatrixPDE", lambda: pf.solveMatrixPDE(mesh, pf.boundaryConditionsTerm(phi.BCs)[0] + pf.linearSourceTerm(beta), np.ones(ncell))),
                  ("solveExplicitPDE", lambda: pf.solveExplicitPDE(phi, 0.01, np.ones(ncell)))]
-        inputs = _mesh_arrays(mesh) + _cell_arrays(phi) + _cell_arrays(beta) + _face_arrays(D) + _face_arrays(u) + _face_arrays(uup)
+        inputs = _mesh_arrays(mesh) + _cell_arrays(phi) + _cell_arrays(beta) + _face_arrays(D) + _face_arrays(u) + _face_arrays(uup) \
+            + [("BCs.periodic flags", _Flags(phi.BCs))]
         for nm, call in calls:
             before = _snap(inputs)
             try:
@@ -1194,7 +1343,8 @@ def probe_c15(ctx, pf):
         Md = pf.diffusionTerm(D); Mu = pf.convectionUpwindTerm(u); Mb = pf.linearSourceTerm(beta)
         terms = [-Md, Mu, Mb]
         tb = _bits(terms)
-        others = _mesh_arrays(mesh) + _cell_arrays(beta) + _face_arrays(D) + _face_arrays(u)
+        others = _mesh_arrays(mesh) + _cell_arrays(beta) + _face_arrays(D) + _face_arrays(u) + [("BCs.periodic flags", _Flags(BC))] \
+            + [(k_, a_) for k_, a_ in _cell_arrays(x)[1:]]
         before = _snap(others)
         with np.errstate(all="ignore"):
             for step in range(3):
@@ -1205,6 +1355,40 @@ def probe_c15(ctx, pf):
         ta = _bits(terms)
         if any(a.tobytes() != b.tobytes() for a, b in zip(tb, ta)):
             ctx.violation(f"c15:{cname}:solvePDE:terms", f"{cname}: solvePDE modified the terms it was given (they cannot be reused in a time loop)", L)
+        # a periodic direction declared through ONE side flag only (the style of the tutorials), every non-radial axis and side:
+        # the boundary builders and the solvers must leave the BoundaryConditions object (coefficients AND flags) as it was
+        for ax_p in nonrad:
+            for side_p in SIDES[ax_p]:
+                BCp, _, _ = set_random_bcs(rng, mesh, cname, allow_periodic=False)
+                getattr(BCp, side_p).periodic = True
+                Lp = dict(L, periodic_flag_on=side_p)
+                try:
+                    with np.errstate(all="ignore"):
+                        inp = [(f"{s_}.{k_}", getattr(getattr(BCp, s_), "_" + k_)) for ax_ in range(3) for s_ in SIDES[ax_] for k_ in "abc"] \
+                            + [("BCs.periodic flags", _Flags(BCp))]
+                        before = _snap(inp)
+                        php = pf.CellVariable(mesh, np.array(phi.value), BCp)
+                        n += 1
+                        if not _same(before, inp):
+                            bad = [k for (k, a), s_ in zip(inp, before) if not np.array_equal(s_, np.asarray(a), equal_nan=True)]
+                            ctx.violation(f"c15:{cname}:CellVariable:mutates-bcs", f"{cname}: constructing a CellVariable modified the boundary-condition object it was given (periodic flag on '{side_p}' only): {bad[:4]}",
+                                          dict(Lp, call="CellVariable(mesh, values, BCs)", modified=bad[:8]))
+                            continue
+                        callsp = [("CellVariable(mesh, values, BCs)", lambda: pf.CellVariable(mesh, np.array(phi.value), BCp)),
+                                  ("boundaryConditionsTerm", lambda: pf.boundaryConditionsTerm(BCp)),
+                                  ("cellValuesWithBoundaries", lambda: pf.boundary.cellValuesWithBoundaries(np.array(phi.value), BCp)),
+                                  ("solveExplicitPDE", lambda: pf.solveExplicitPDE(php, 0.01, np.ones(ncell))),
+                                  ("solvePDE", lambda: pf.solvePDE(pf.CellVariable(mesh, np.array(phi.value), BCp), [pf.transientTerm(php, 0.5, 1.0), -Md]))]
+                        for nm, call in callsp:
+                            before = _snap(inp)
+                            call()
+                            n += 1
+                            if not _same(before, inp):
+                                bad = [k for (k, a), s_ in zip(inp, before) if not np.array_equal(s_, np.asarray(a), equal_nan=True)]
+                                ctx.violation(f"c15:{cname}:{nm}:mutates-bcs", f"{cname}: {nm} modified the boundary-condition object it was given (periodic flag on '{side_p}' only): {bad[:4]}",
+                                              dict(Lp, call=nm, modified=bad[:8]))
+                except Exception as ex:
+                    ctx.violation(f"c15:{cname}:periodic:raise", f"{cname}: a builder raised with a one-sided periodic flag on '{side_p}': {type(ex).__name__}: {ex}", Lp)
     return n
 
 
@@ -1656,7 +1840,7 @@ def _mms_solve(pf, cname, N, setup, scheme, bc_kind, graded):
         lo, hi = {"len": (0.0, 1.0), "rad": (1.0, 2.0), "ang": (0.3, 1.3), "pol": (0.6, 1.6)}[kind[a]]
         t = np.linspace(0.0, 1.0, N + 1)
         if graded:
-            t = t + 0.15 * np.sin(np.pi * t) ** 2 * (1 - t) * t * 2     # smooth grading
+            t = t + 0.3 * t * (1 - t) * (1 + 0.5 * t)     # smooth, ASYMMETRIC grading: first cell ~1.3 h, last cell ~0.55 h
         fs.append(lo + (hi - lo) * t)
     mesh = gen.build_mesh(pf, cname, fs)
     cc = [mesh.cellcenters._x, mesh.cellcenters._y, mesh.cellcenters._z][:d]
